@@ -3,6 +3,7 @@ package main
 import (
 	"bytes"
 	"flag"
+	"os"
 
 	"github.com/ipfs/go-cid"
 	carv1 "github.com/ipld/go-car"
@@ -139,6 +140,12 @@ func vAcceptedByInspectAndVerify(tagp string, path string, file []byte, rootsAmo
 	}
 	_, err = rd.Inspect(true)
 	vAssert(tagp+"inspect-full-accepts", err == nil)
+	// the command itself: car inspect --full
+	f, ferr := os.Open(path)
+	vAssert(tagp+"output-opens-as-file", ferr == nil)
+	_, cerr := lib.InspectCar(f, true)
+	f.Close()
+	vAssert(tagp+"car-inspect-full-accepts", cerr == nil)
 	if rootsAmongBlocks {
 		vAssert(tagp+"verify-accepts", lib.VerifyCar(path) == nil)
 	}
